@@ -208,7 +208,7 @@ impl<D: DictionaryAccess> StatefulTokenizer<D> {
         subset: &mut InfoSubset,
     ) {
         std::mem::swap(&mut self.input, input);
-        std::mem::swap(self.top_path.as_mut().unwrap(), result);
+        std::mem::swap(self.top_path.get_or_insert_with(Vec::new), result);
         *subset = self.subset;
     }
 
